@@ -245,6 +245,7 @@ static int run_lifo_t(Mk mk, const std::string& header, std::size_t bs)
             const char* cls = in_child([&] { s->deallocate_block(b); });
             res = std::string(cls) + " position=" + std::to_string(k) + " of=" + std::to_string(held.size());
         }
+        else if (op == "fail") { up().fail_at = up().calls + 1; res = "set"; }     // the next upstream call of the fixed source fails
         else if (op == "badfree")
         {   // fixed source: a block is returned although none is out
             if (!held.empty()) { std::printf("%s = skipped\n", line.c_str()); continue; }
@@ -269,7 +270,8 @@ static int run_lifo(std::istringstream& hs, const std::string& header)
 // ---------------------------------------------------------------- unwind above the top
 static int run_unwind(std::istringstream& hs, const std::string& header)
 {
-    std::size_t bs; hs >> bs;
+    std::size_t bs; std::string dir; hs >> bs >> dir;
+    if (dir == "down") up().descending = true;     // later blocks lie at lower addresses
     memory_stack<up_alloc> st(bs);
     std::printf("%s = ok | ptr=%d asserts=%d\n", header.c_str(), FOONATHAN_MEMORY_DEBUG_POINTER_CHECK, FOONATHAN_MEMORY_DEBUG_ASSERT);
     using marker = memory_stack<up_alloc>::marker;
